@@ -19,7 +19,7 @@ import ast
 
 from ..astutil import attr_writes, call_name, calls, dotted, param_names, stmts, walk_local
 from ..cfg import CFG
-from ..exprnorm import summarize
+from ..exprnorm import same_expr, summarize
 from ..core import AnalysisError, Mutant
 from ..program import ClassIndex
 
@@ -216,7 +216,8 @@ def escape_decision_table(ctx, esc, pname, triggers, anywhere):
                 res = val.get(("in", l.value))
                 if res is None:
                     res = val.setdefault(("free", "in:" + repr(l.value)), None)
-            elif isinstance(op, (ast.Eq, ast.NotEq)) and isinstance(l, ast.Call) and call_name(l) == "len" and isinstance(r, ast.Constant):
+            elif isinstance(op, (ast.Eq, ast.NotEq)) and isinstance(l, ast.Call) and call_name(l) == "len" and isinstance(r, ast.Constant) \
+                    and len(l.args) == 1 and isinstance(l.args[0], ast.Name) and l.args[0].id == pname:
                 res = val[("empty",)] if r.value == 0 else None
             elif isinstance(l, ast.Subscript) and isinstance(l.value, ast.Name) and l.value.id == pname \
                     and isinstance(l.slice, ast.Constant) and l.slice.value == 0:
@@ -267,10 +268,14 @@ def escape_decision_table(ctx, esc, pname, triggers, anywhere):
             return "bare"
         if isinstance(e, ast.Constant) and e.value in ("''", '""'):
             return "quoted-empty"
-        if isinstance(e, ast.BinOp):
-            consts = [c.value for c in ast.walk(e) if isinstance(c, ast.Constant) and isinstance(c.value, str)]
-            if consts in (["'", "'"], ['"', '"']) and any(isinstance(n, ast.Name) and n.id == pname for n in ast.walk(e)):
-                return "quoted-" + consts[0]
+        for q in ("'", '"'):
+            # the value itself, unchanged, between two quote characters
+            if isinstance(e, ast.BinOp) and same_expr(e, f"{q!r} + {pname} + {q!r}"):
+                return "quoted-" + q
+            if isinstance(e, ast.JoinedStr) and len(e.values) == 3 and all(isinstance(c, ast.Constant) and c.value == q for c in (e.values[0], e.values[2])) \
+                    and isinstance(e.values[1], ast.FormattedValue) and isinstance(e.values[1].value, ast.Name) and e.values[1].value.id == pname \
+                    and e.values[1].conversion == -1 and e.values[1].format_spec is None:
+                return "quoted-" + q
         return "other:" + ast.unparse(e)[:30]
 
     def consistent(val):
@@ -346,6 +351,9 @@ def escape_decision_table(ctx, esc, pname, triggers, anywhere):
     if ("in", "\n") in atoms:
         check("R1.branch-order", "line break in value -> text field", lambda v: v.get(("in", "\n")), lambda o, v: o == "text-field",
               "a value with a line break must become a text field whatever else it contains", esc.lineno)
+    check("R1.value-verbatim", "every branch writes the value itself: bare, between two equal quote characters, or as a text field",
+          lambda v: True, lambda o, v: not o.startswith("other:"),
+          "_escape must write the value unchanged (bare, quoted or as a text field): anything else is not what the reader gives back", esc.lineno)
     check("R1.empty-quoted", "len(value) == 0", lambda v: v[("empty",)], lambda o, v: o in ("quoted-empty", "quoted-'", 'quoted-"'),
           "an empty value must be written as a quoted empty string", esc.lineno)
 
